@@ -115,8 +115,55 @@ def uses_risky_b(c):
     return q.get('join') and (q['join']['kind'] == 'left' or ragged_b) and '["b"' in txt and any(op in txt for op in ('"concat"', '"len"', '"like"', '"split"', '"lt"', '"le"'))
 
 
+def gen_projection_cases(rnd, n):
+    """PURE PROJECTIONS over tables with None, '' and missing cells: bare field references, stars, NR and literals mean the same in both
+    languages whatever the cell holds (None <-> null), so DISTINCT / DISTINCT COUNT / JOIN keys / TOP must tell None, '' and text apart alike"""
+    cases = []
+    for _ in range(n):
+        ncols = rnd.randint(2, 3)
+        vals = [None, '', 'x', None, '', 'y', 'null', 'None', '0', ',', '\x1f', 'x\x1f']
+        A = [[rnd.choice(vals) for _c in range(rnd.choice([ncols, ncols, ncols - 1]))] for _r in range(rnd.randint(1, 7))]
+        q = {'items': []}
+        for _i in range(rnd.randint(1, 3)):
+            q['items'].append(rnd.choice([{'e': ['a', rnd.randrange(ncols)]}, {'e': ['a', rnd.randrange(ncols)]}, 'star', {'e': ['nr']}, {'e': ['lit', rnd.choice(['', 'k'])]}]))
+        q['distinct'] = rnd.choice(['yes', 'count', 'yes', 'count', 'no'])
+        if rnd.random() < 0.3:
+            q['top'] = rnd.randint(0, 4)
+        if rnd.random() < 0.3:
+            q['where'] = [rnd.choice(['eq', 'ne']), ['a', rnd.randrange(ncols)], ['lit', rnd.choice(['', 'x', None])]]
+        B = None
+        if rnd.random() < 0.3:
+            B = [[rnd.choice(['', 'x', 'y', 'null', '0']), rnd.choice(vals)] for _r in range(rnd.randint(0, 4))]
+            q['join'] = {'kind': rnd.choice(['inner', 'left']), 'lhs': [rnd.randrange(ncols - 1)], 'rhs': [0]}
+            # the join key column of A must exist in every record (a missing key field is an error in both, with different wording of the class)
+            A = [r + [rnd.choice(vals)] * (ncols - len(r)) for r in A]
+            if rnd.random() < 0.5:
+                q['items'].append({'e': ['b', 1]})
+        cases.append({'q': q, 'A': A, 'B': B, 'proj': True})
+    return cases
+
+
+def projection_only(c):
+    q = c['q']
+    if q.get('update') or q.get('order') or q.get('group') or q.get('except') is not None:
+        return False
+    for it in q.get('items', []):
+        if it == 'star':
+            continue
+        if not (isinstance(it, dict) and set(it) == {'e'} and it['e'][0] in ('a', 'b', 'nr', 'lit')):
+            return False
+    w = q.get('where')
+    if w is not None and not (w[0] in ('eq', 'ne') and w[1][0] == 'a' and w[2][0] == 'lit'):
+        return False
+    if q.get('join') and any(len(r) <= max(q['join']['lhs']) for r in c['A']):
+        return False
+    return True
+
+
 def in_class(c):
     """the class of cases on which Python and JS expressions mean the same (also used to keep shrinking inside it)"""
+    if c.get('proj'):
+        return projection_only(c)
     A = c['A']
     if any(x is None for r in A for x in r):
         return False
@@ -145,6 +192,9 @@ def run(res, tier, seed):
                        'only expressions that mean the same in both languages (no None/null operands of + / .length / like / split / <)']
     rnd = random.Random(seed * 104395301 + 19)
     cases = [c for c in gen_cases(rnd, 7000 if tier == 'quick' else 120000) if in_class(c)]
+    proj = [c for c in gen_projection_cases(random.Random(seed * 31 + 191), 1500 if tier == 'quick' else 25000) if in_class(c)]
+    res.count('projection_cases(None / empty / missing cells)', len(proj))
+    cases = cases + proj
     for c in cases:
         q = c['q']
         kind = 'update' if q.get('update') else 'agg' if (q.get('group') or any(isinstance(i, dict) and 'agg' in i for i in q['items'])) else 'select'
